@@ -235,6 +235,7 @@ func main() {
 	runGrid(o, hlib.NewRng(*hlib.FlagSeed, "c01grid"+*hlib.FlagMode), mut)
 	runKeysets(o, hlib.NewRng(*hlib.FlagSeed, "c01ks"+*hlib.FlagMode), mut)
 	runKMS(o, hlib.NewRng(*hlib.FlagSeed, "c01kms"+*hlib.FlagMode), mut)
+	runAADBits(o, hlib.NewRng(*hlib.FlagSeed, "c01aad"+*hlib.FlagMode))
 }
 
 // exercise runs the two-way correspondence (and, in mut mode, the mutation stream) for one AEAD
